@@ -32,6 +32,9 @@ mixed rc_unique_cb(mixed x) { rc_unique(); return 1; }
 varargs void rc_fpargs(mixed a) { function f; f = (: rc_fpargs, 1, 2, 3, 4, 5, 6, 7, 8, 9, 10, 11, 12, 13, 14, 15, 16, 17, 18, 19, 20, 21, 22, 23, 24, 25, 26, 27, 28, 29, 30, 31, 32, 33, 34, 35, 36, 37, 38, 39, 40 :); evaluate(f); }
 varargs void rc_spread(mixed a) { rc_spread(allocate(60)...); }
 varargs mixed rc_efunfp(mixed a) { function f; f = (: sizeof, ({ 1 }) :); return evaluate((: rc_efunfp, allocate(50)... :)) + evaluate(f); }
+// a loop whose body makes the driver apply a master function through safe_apply() (object_name for "%O"): with a master
+// whose function never returns, every turn runs into the evaluation limit inside that callback
+void sp_objname() { string t; while (1) t = sprintf("%O", this_object()); }
 void rc_callother() { this_object()->rc_callother(); }
 void rc_catch() { catch(rc_catch()); }
 void rc_catch2() { catch(catch(rc_catch2())); }
